@@ -4,6 +4,9 @@
 //                                  {"t":register,"a":Create|MoveToF<target 1..3>|Call|Cleanup}) P times; every Create
 //                                  takes the next callable type of the 11 sizes x 9 alignments rotation
 //   --random N --maxops M          N random legal operation sequences of up to M operations
+//   --reentrant                    directed executions: every callable type (+ two of malloc class 1024) x both
+//                                  re-entrant destructor modes x five consume paths (run, cleanupNotRun, moved then
+//                                  run, moved twice then cleanupNotRun, two blocks of the class destroyed oldest first)
 //   --seed S                       rotation offset / variant choice / random sequences
 //
 // What is recorded (never addresses, only remainders and identities):
@@ -16,6 +19,19 @@
 //   after every operation, per callable id: invocation count, number of live value-carrying instances,
 //           number of destructions of a value-carrying instance; live moved-from husks; per small-buffer
 //           class (4..256) the number of blocks missing from the thread cache w.r.t. the start
+//   storage is OWNED until destruction ends (C39: "stored at an address ...", the callable lives in storage the
+//   OnceFunction exclusively owns until it has been destroyed): release is the LAST thing operator() /
+//   cleanupNotRun() do.  Observed in two independent ways:
+//     iout/ilout, dout/dlout   the blocks missing from each class' thread cache / the heap blocks outstanding,
+//           sampled inside operator() and at the very end of the callable's destructor: the callable's own block
+//           must still be outstanding there (= the specification's pre-state of the Call / Cleanup step)
+//     re-entrant payloads ("re" 1/2 on the Create line)   a callable whose operator() and destructor create and
+//           consume ANOTHER OnceFunction holding a callable of the same sizeof/alignof (hence the same storage
+//           decision and size class, same thread) - what a completion notifier / scope-exit capture that
+//           schedules follow-up work does.  The nested callable must not be constructed on top of the outer one
+//           ("nover"), must itself be intact when invoked / destroyed ("nbad") and be destroyed exactly once
+//           ("ndtor", "nlive"), and the outer callable's bytes are checked AFTER the nested one was written and
+//           consumed, as the last statement of the destructor ("intact").
 #include <dispenso/detail/small_buffer_allocator_impl.h>
 #include <dispenso/once_function.h>
 
@@ -70,10 +86,100 @@ struct Watch {
 struct Stat {
   int invoked = 0, live = 0, dtor = 0, intact = 1;
   uintptr_t lastCtor = 0, callAddr = 0, dtorAddr = 0;
+  // re-entrancy: 0 plain payload; 1 operator() and the destructor create a nested OnceFunction of the same
+  // sizeof/alignof and invoke it; 2 the same, consumed with cleanupNotRun()
+  int reent = 0;
+  int nover = 0, nbad = 0, nlive = 0, ninv = 0, ndtor = 0;
+  // blocks outstanding (per small-buffer class / heap) sampled inside operator() and at the end of ~Callable
+  long long iout[7] = {0, 0, 0, 0, 0, 0, 0}, dout[7] = {0, 0, 0, 0, 0, 0, 0};
+  int ilout = 0, dlout = 0;
 };
 static Stat g_stat[256];
 static int g_husks = 0;
 static int g_nids = 0;
+
+struct ClassObs {
+  char** buf;
+  size_t* count;
+  long long base;
+};
+static ClassObs g_cls[7];
+static void sampleOwned(long long (&o)[7], int& lo) {
+  for (int k = 0; k < 7; ++k)
+    o[k] = g_cls[k].base - (long long)*g_cls[k].count;
+  lo = g_heapN;
+}
+
+// ------------------------------------------------------------------------------ nested callable
+// What a re-entrant payload stores into a second OnceFunction while it is being invoked / destroyed: same
+// sizeof and alignof as the payload, so OnceFunction takes the same storage decision and - for spilled
+// storage - the same size class from the same thread cache.  bytes[0]: 1 = value, 0 = moved-from husk.
+static int g_nestOwner = 0;
+static uintptr_t g_nestAddr = 0;
+static inline unsigned char npat(size_t i) {
+  return (unsigned char)(0xa5 ^ (i * 13));
+}
+template <size_t S, size_t A>
+struct alignas(A) Nested {
+  unsigned char bytes[S];
+  Nested() {
+    bytes[0] = 1;
+    for (size_t i = 1; i < S; ++i)
+      bytes[i] = npat(i);
+    ++g_stat[g_nestOwner].nlive;
+  }
+  Nested(Nested&& o) noexcept {
+    std::memcpy(bytes, o.bytes, S);
+    if (bytes[0] == 1) {
+      o.bytes[0] = 0;
+      g_nestAddr = reinterpret_cast<uintptr_t>(this);
+    }
+  }
+  Nested(const Nested&) = delete;
+  Nested& operator=(const Nested&) = delete;
+  ~Nested() {
+    if (bytes[0] == 0)
+      return;
+    Stat& s = g_stat[g_nestOwner];
+    --s.nlive;
+    ++s.ndtor;
+    check(s);
+  }
+  void operator()() {
+    Stat& s = g_stat[g_nestOwner];
+    ++s.ninv;
+    check(s);
+  }
+
+ private:
+  void check(Stat& s) const {
+    if (bytes[0] != 1)
+      ++s.nbad;
+    for (size_t i = 1; i < S; ++i)
+      if (bytes[i] != npat(i))
+        ++s.nbad;
+  }
+};
+
+// called from inside Callable<S, A>::operator() / ~Callable<S, A>() (self = that callable, still alive)
+template <size_t S, size_t A>
+static void reenter(int id, const void* self) {
+  Stat& s = g_stat[id];
+  int savedOwner = g_nestOwner;
+  g_nestOwner = id;
+  g_nestAddr = 0;
+  {
+    OnceFunction n{Nested<S, A>()}; // takes a block of the same class from this thread's cache / the heap
+    uintptr_t lo = g_nestAddr, me = reinterpret_cast<uintptr_t>(self);
+    if (lo == 0 || (lo < me + S && me < lo + S))
+      ++s.nover; // constructed on top of a callable that is still alive
+    if (s.reent == 1)
+      n();
+    else
+      n.cleanupNotRun();
+  }
+  g_nestOwner = savedOwner;
+}
 
 static inline unsigned char pat(int id, size_t i) {
   return (unsigned char)(id * 31 + i * 7 + 3);
@@ -126,12 +232,20 @@ struct alignas(A) Callable {
     --g_stat[id].live;
     ++g_stat[id].dtor;
     g_stat[id].dtorAddr = reinterpret_cast<uintptr_t>(this);
-    check(id); // the bytes must also be intact when the callable is destroyed without being invoked
+    if (g_stat[id].reent)
+      reenter<S, A>(id, this); // a member's destructor that schedules follow-up work of the same size class
+    sampleOwned(g_stat[id].dout, g_stat[id].dlout); // is this callable's block still taken?
+    // the bytes must be intact up to the very end of the destruction (also when the callable is destroyed
+    // without being invoked, and after whatever was allocated, written and released during the destruction)
+    check(id);
   }
   void operator()() {
     int id = bytes[0] & 0x7f;
     ++g_stat[id].invoked;
     g_stat[id].callAddr = reinterpret_cast<uintptr_t>(this);
+    if (g_stat[id].reent)
+      reenter<S, A>(id, this);
+    sampleOwned(g_stat[id].iout, g_stat[id].ilout);
     check(id);
   }
 
@@ -197,6 +311,8 @@ static void addSize() {
   addType<S, 128>();
   addType<S, 256>();
 }
+// beyond the 11 x 9 rotation (directed re-entrant executions only): callables of the next heap size class
+static size_t g_rotTypes = 0;
 static void buildTypes() {
   addSize<1>();
   addSize<8>();
@@ -209,15 +325,12 @@ static void buildTypes() {
   addSize<200>();
   addSize<256>();
   addSize<300>();
+  g_rotTypes = g_types.size();
+  addType<600, 8>();
+  addType<1000, 64>();
 }
 
 // ------------------------------------------------------------------- small buffer cache observation
-struct ClassObs {
-  char** buf;
-  size_t* count;
-  long long base;
-};
-static ClassObs g_cls[7];
 template <size_t K>
 static void initClass(int ord) {
   char* p = dispenso::allocSmallBuffer<K>(); // warm up: the thread cache now holds a full grab
@@ -309,10 +422,16 @@ struct Exec {
   bool canCreate(int f) const {
     return regId[f] == 0 && g_nids < 120;
   }
+  // directed executions choose the type and the re-entrancy mode themselves
+  int forceType = -1, forceReent = -1;
   void create(int f) {
-    const TypeInfo& ti = g_types[typeCursor++ % g_types.size()];
+    // the re-entrancy mode changes with every round of the type rotation: every type gets every mode
+    size_t cur = typeCursor++;
+    const TypeInfo& ti = forceType >= 0 ? g_types[(size_t)forceType] : g_types[cur % g_rotTypes];
+    int reent = forceReent >= 0 ? forceReent : (int)((cur / g_rotTypes) % 3);
     int variant = (int)(ctl::splitmix(rng) % 3);
     int id = ++g_nids;
+    g_stat[id].reent = reent;
     OnceFunction* origin;
     {
       Watch w;
@@ -328,6 +447,7 @@ struct Exec {
     j.kv("size", (long long)ti.size);
     j.kv("align", (long long)ti.align);
     j.kv("var", variant);
+    j.kv("re", reent);
     j.kv("kind", std::string(inObj(origin, a) ? "inline" : "spill"));
     j.kv("amod", (long long)(a % ti.align));
     j.kv("m512", (long long)(a % 512));
@@ -392,6 +512,26 @@ struct Exec {
     for (auto& c : g_cls)
       j.num((*c.count > 0 && reinterpret_cast<uintptr_t>(c.buf[*c.count - 1]) == s.dtorAddr) ? 1 : 0);
     j.endArr();
+    // storage owned until destruction ends: blocks outstanding as seen from inside operator() / at the end of
+    // the destructor, and what the nested OnceFunctions of a re-entrant payload saw
+    if (run) {
+      j.key("iout").beginArr();
+      for (int k = 0; k < 7; ++k)
+        j.num(s.iout[k]);
+      j.endArr();
+      j.kv("ilout", s.ilout);
+    }
+    j.key("dout").beginArr();
+    for (int k = 0; k < 7; ++k)
+      j.num(s.dout[k]);
+    j.endArr();
+    j.kv("dlout", s.dlout);
+    j.kv("re", s.reent);
+    j.kv("nover", s.nover);
+    j.kv("nbad", s.nbad);
+    j.kv("nlive", s.nlive);
+    j.kv("ninv", s.ninv);
+    j.kv("ndtor", s.ndtor);
     obs(j);
     j.endObj();
     tr.line(j.s);
@@ -468,6 +608,41 @@ int main(int argc, char** argv) {
         tot.add(r);
       }
     }
+  } else if (a.has("reentrant")) {
+    // Directed: the storage of a spilled callable must stay owned while the callable runs and until its
+    // destructor has returned, for every storage class and on every way a OnceFunction is consumed.  Every
+    // type x both nested-consume modes x
+    //   0 Create, Call                       1 Create, Cleanup
+    //   2 Create, Move, Call                 3 Create, Move, Move, Cleanup
+    //   4 Create, Create (same class: two blocks taken), Call the OLDER one (its block is not the one a LIFO
+    //     cache would hand out next on correct code - it is, if it was released too early), Move + Cleanup the other
+    static const char* const kPaths[5][5][2] = {
+        {{"f1", "Create"}, {"f1", "Call"}},
+        {{"f1", "Create"}, {"f1", "Cleanup"}},
+        {{"f1", "Create"}, {"f1", "MoveToF2"}, {"f2", "Call"}},
+        {{"f1", "Create"}, {"f1", "MoveToF2"}, {"f2", "MoveToF3"}, {"f3", "Cleanup"}},
+        {{"f1", "Create"}, {"f2", "Create"}, {"f1", "Call"}, {"f2", "MoveToF3"}, {"f3", "Cleanup"}}};
+    for (size_t t = 0; t < g_types.size(); ++t)
+      for (int mode = 1; mode <= 2; ++mode)
+        for (int p = 0; p < 5; ++p) {
+          Exec ex(tr, rng, typeCursor);
+          ex.forceType = (int)t;
+          ex.forceReent = mode;
+          ex.begin("reent_t" + std::to_string(t) + "_m" + std::to_string(mode) + "_p" + std::to_string(p));
+          ctl::RunResult r;
+          r.completed = true;
+          for (int k = 0; k < 5 && kPaths[p][k][0]; ++k) {
+            if (!ex.apply(kPaths[p][k][0], kPaths[p][k][1])) {
+              r.completed = false;
+              r.diverged = true;
+              break;
+            }
+            ++r.steps;
+          }
+          ex.finish();
+          creates += g_nids;
+          tot.add(r);
+        }
   } else {
     long long n = a.num("random", 100);
     long long maxops = a.num("maxops", 12);
@@ -505,6 +680,6 @@ int main(int argc, char** argv) {
   }
   tr.flush();
   tot.print();
-  printf("CREATES %lld TYPES %zu\n", creates, g_types.size());
+  printf("CREATES %lld TYPES %zu\n", creates, g_rotTypes);
   return 0;
 }
